@@ -349,7 +349,8 @@ def _truth_key(k, facts):
         if l[0] == "const" and r[0] == "const":
             try:
                 a, b = l[1], r[1]
-                return {"Is": a is b, "Eq": a == b, "Lt": a < b, "LtE": a <= b, "In": a in b}[op]
+                return {"Is": lambda: a is b, "Eq": lambda: a == b, "Lt": lambda: a < b, "LtE": lambda: a <= b,
+                        "In": lambda: a in b}[op]()
             except Exception:
                 return None
         if op == "Is" and r == NONE:
@@ -384,6 +385,13 @@ def _truth_key(k, facts):
                 if r[1] is None and _nonnull(l):
                     return False
             return None
+        if op in ("Lt", "LtE"):
+            # a <= b  ==  not (b < a);  a < b  ==  not (b <= a)
+            other = ("cmp", "Lt" if op == "LtE" else "LtE", r, l)
+            if other in facts:
+                return not facts[other]
+            if op == "LtE" and facts.get(("cmp", "Lt", l, r)) is True:
+                return True
         if op == "In":
             # x in <empty const>
             if r[0] == "const" and isinstance(r[1], (str, tuple, bytes)) and len(r[1]) == 0 and op == "In":
@@ -571,6 +579,7 @@ class Analyzer:
         self._new_n = 0
         self._unk_n = 0
         self._global_names = set()
+        self._frames = []       # inline frames: calls to package helpers that are not anchors are analysed in place
 
     # -- entry ---------------------------------------------------------------
     def run(self, init: State | None = None) -> Result:
@@ -658,7 +667,7 @@ class Analyzer:
 
     def s_FunctionDef(self, st, s, j):
         s = s.copy()
-        s.env[st.name] = self.unknown("nested-def")
+        s.env[self._k(st.name)] = self.unknown("nested-def")
         return [s]
 
     s_ClassDef = s_FunctionDef
@@ -692,15 +701,31 @@ class Analyzer:
         s = s.copy()
         for t in st.targets:
             if isinstance(t, ast.Name):
-                s.env[t.id] = self.unknown("deleted")
+                s.env[self._k(t.id)] = self.unknown("deleted")
+            elif isinstance(t, ast.Subscript):
+                # `del x[i]`: the element must exist (same obligation as a load) and x is changed in place
+                s1, base = self.eval(t.value, s)[0]
+                s2, idx = self.eval(t.slice, s1)[0]
+                self.event("sub", t, s2, base=base, index=idx, value=("sub", base, idx))
+                self.event("mutate", t, s2, recv=base, method="delitem", args=(idx,), new=("mut", base, "delitem", (idx,)),
+                           on_name=self._outer_name(t.value.id) if isinstance(t.value, ast.Name) else None)
+                s = s2.copy()
+                if isinstance(t.value, ast.Name):
+                    s.env[self._k(t.value.id)] = ("mut", base, "delitem", (idx,))
         return [s]
 
     def s_Return(self, st, s, j):
         if st.value is None:
+            if self._frames:
+                self._frames[-1]["returns"].append((s, NONE))
+                return []
             self.res.returns.append((s, NONE, st))
             self.event("return", st, s, value=NONE)
             return []
         for s2, v in self.eval(st.value, s):
+            if self._frames:
+                self._frames[-1]["returns"].append((s2, v))
+                continue
             self.res.returns.append((s2, v, st))
             self.event("return", st, s2, value=v)
         return []
@@ -745,7 +770,7 @@ class Analyzer:
         return out
 
     def _loop_head(self, s, body, lid, extra=()):
-        names = assigned_names(body) | set(extra)
+        names = {self._k(n) for n in assigned_names(body) | set(extra)}
         head = s.copy()
         for n in sorted(names):
             src = head.env.get(n, ("unknown", "unbound", 0))
@@ -836,7 +861,7 @@ class Analyzer:
             for s1 in states:
                 s3 = s1.copy()
                 for n in names:
-                    s3.env[n] = self.unknown("suppressed")
+                    s3.env[self._k(n)] = self.unknown("suppressed")
                 falls.append(s3)
         return falls
 
@@ -851,14 +876,23 @@ class Analyzer:
             falls = self.exec_block(st.orelse, falls, lj)
         out = list(falls)
         names = assigned_names(st.body)
+        # a name whose only assignment in the try body is the final statement keeps its previous value in the
+        # handlers: if that statement raised, the assignment did not happen
+        last = st.body[-1] if st.body else None
+        keep = set()
+        if isinstance(last, (ast.Assign, ast.AnnAssign)) and last.value is not None:
+            tg = last.targets if isinstance(last, ast.Assign) else [last.target]
+            if all(isinstance(t, ast.Name) for t in tg):
+                keep = {t.id for t in tg} - assigned_names(st.body[:-1]) - assigned_names([ast.Expr(value=last.value)])
+        names = names - keep
         for h in st.handlers:
             hs = s.copy()
             for n in names:
-                hs.env[n] = self.unknown("try-interrupted")
+                hs.env[self._k(n)] = self.unknown("try-interrupted")
             hs.ctx = hs.ctx + (("except", unparse(h.type) if h.type is not None else "BaseException"),)
             if h.name:
                 self._new_n += 1
-                hs.env[h.name] = ("exc", unparse(h.type) if h.type is not None else "BaseException", self._new_n)
+                hs.env[self._k(h.name)] = ("exc", unparse(h.type) if h.type is not None else "BaseException", self._new_n)
             hf = self.exec_block(h.body, [hs], lj)
             out.extend(self._pop_ctx(x, hs.ctx[-1]) for x in hf)
         if st.finalbody:
@@ -878,7 +912,7 @@ class Analyzer:
     def assign(self, tgt, v, s: State, st) -> State:
         if isinstance(tgt, ast.Name):
             s2 = s.copy()
-            s2.env[tgt.id] = v
+            s2.env[self._k(tgt.id)] = v
             if tgt.id in self._global_names:
                 self.event("store_global", st, s2, name=tgt.id, value=v)
             return s2
@@ -916,7 +950,7 @@ class Analyzer:
                 s3.trace = s3.trace + (("store", ("sub", base, idx), v),)
             new = ("mut", base, "setitem", (idx, v))
             if isinstance(tgt.value, ast.Name):
-                s3.env[tgt.value.id] = new
+                s3.env[self._k(tgt.value.id)] = new
             return s3
         if isinstance(tgt, ast.Starred):
             return self.assign(tgt.value, v, s, st)
@@ -949,8 +983,9 @@ class Analyzer:
         return [(s, ("const", e.value))]
 
     def e_Name(self, e, s):
-        if e.id in s.env:
-            return [(s, s.env[e.id])]
+        k = self._k(e.id)
+        if k in s.env:
+            return [(s, s.env[k])]
         return [(s, self.global_term(e.id))]
 
     def global_term(self, name):
@@ -1153,6 +1188,10 @@ class Analyzer:
                 for s3, kvs in self.eval_seq(kwexprs, s2):
                     kwargs = tuple((k.arg, v) for k, v in zip(e.keywords, kvs))
                     args_t = tuple(args)
+                    inl = self._inline_target(f)
+                    if inl is not None:
+                        out.extend(self._inline(inl, e, f, args_t, kwargs, s3))
+                        continue
                     if f == ("attr", ("builtin", "object"), "__new__") and args_t:
                         self._new_n += 1
                         res = ("new", show(args_t[0]), self._new_n)
@@ -1166,15 +1205,113 @@ class Analyzer:
                             mut = ("mut", recv, e.func.attr, args_t)
                             if isinstance(e.func.value, ast.Name):
                                 s4 = s3.copy()
-                                s4.env[e.func.value.id] = mut
+                                s4.env[self._k(e.func.value.id)] = mut
                             self.event("mutate", e, s3, recv=recv, method=e.func.attr, args=args_t, new=mut,
-                                       on_name=e.func.value.id if isinstance(e.func.value, ast.Name) else None)
+                                       on_name=self._outer_name(e.func.value.id) if isinstance(e.func.value, ast.Name) else None)
                     self.event("call", e, s3, func=f, args=args_t, kwargs=kwargs, value=res, mut=mut)
                     if self.trace is not None and self.trace("call", res):
                         s4 = s4.copy()
                         s4.trace = s4.trace + (res,)
                     out.append((s4, res))
         return out
+
+    # -- transparent helpers ---------------------------------------------------------------------------------
+    def _inline_target(self, f):
+        """FuncInfo of a package function / method that is not one of the anchors the rules know (a helper
+        introduced by a later refactoring): such calls are analysed in place."""
+        if len(self._frames) >= 3 or not self.model.anchors:
+            return None
+        fi = None
+        if f[0] == "global":
+            r = self.model.resolve_global(f[1], f[2]) if f[1] in self.model.modules else None
+            if r and r[0] == "func":
+                fi = r[1]
+        elif f[0] == "attr" and f[1] in (("param", "self"), ("param", "cls")) and self.fi.cls:
+            q = f"{self.fi.module}.{self.fi.cls}.{f[2]}"
+            if self.model.has_func(q):
+                fi = self.model.func(q)
+        if fi is None or not self.model.inlinable(fi):
+            return None
+        if fi.qual in [fr["qual"] for fr in self._frames] or fi.qual == self.fi.qual:
+            return None
+        return fi
+
+    def _k(self, name):
+        """Environment key of a local name: helper locals are qualified by the helper, so that the state of the
+        analysed function stays visible (and untouched) while a helper is analysed in place."""
+        return f"{self._frames[-1]['qual']}:{name}" if self._frames else name
+
+    def _outer_name(self, name):
+        """The analysed function's name for a container a helper received as argument (events keep talking about
+        the caller's variable); helper locals are qualified so they cannot collide with the caller's names."""
+        for fr in reversed(self._frames):
+            if name in fr["names"]:
+                name = fr["names"][name]
+            else:
+                return f"{fr['qual']}:{name}"
+        return name
+
+    def _inline(self, callee, call_node, f, args_t, kwargs, s):
+        a = callee.node.args
+        params = [x.arg for x in a.posonlyargs + a.args]
+        env = {}        # helper-local name -> term (qualified below)
+        if callee.cls and params and params[0] in ("self", "cls"):
+            env[params[0]] = f[1] if f[0] == "attr" else ("param", params[0])
+            params = params[1:]
+        plain = [x for x in args_t if x[0] != "star"]
+        if any(x[0] == "star" for x in args_t) or any(k is None for k, _v in kwargs):
+            return [(s, ("call", f, args_t, kwargs))]        # star-args: not inlined
+        for p, t in zip(params, plain):
+            env[p] = t
+        if a.vararg is not None:
+            env[a.vararg.arg] = ("tuple", tuple(plain[len(params):]))
+        elif len(plain) > len(params):
+            return [(s, ("call", f, args_t, kwargs))]
+        for k, v in kwargs:
+            env[k] = v
+        if a.kwarg is not None:
+            env[a.kwarg.arg] = ("dict", ())
+        for p in params + [x.arg for x in a.kwonlyargs]:
+            if p not in env:
+                d = callee.param_default(p)
+                if d is None:
+                    return [(s, ("call", f, args_t, kwargs))]
+                saved_fi = self.fi
+                self.fi = callee
+                try:
+                    env[p] = self.eval(d, State())[0][1]
+                finally:
+                    self.fi = saved_fi
+        arg_names = {}
+        for p, ae in zip(params, [x for x in call_node.args if not isinstance(x, ast.Starred)]):
+            if isinstance(ae, ast.Name):
+                arg_names[p] = ae.id
+        for kw in call_node.keywords:
+            if kw.arg and isinstance(kw.value, ast.Name):
+                arg_names[kw.arg] = kw.value.id
+        q = callee.qual
+        full = dict(s.env)
+        full.update({f"{q}:{n}": t for n, t in env.items()})
+        init = State(full, s.facts.copy(), dict(s.heap), s.ctx, s.trace)
+        frame = {"qual": callee.qual, "returns": [], "names": arg_names}
+        saved_fi, saved_globals = self.fi, self._global_names
+        self.fi = callee
+        self._frames.append(frame)
+        try:
+            falls = self.exec_block(callee.node.body, [init], {"break": [], "continue": []})
+        finally:
+            self._frames.pop()
+            self.fi, self._global_names = saved_fi, saved_globals
+        outs = frame["returns"] + [(st, NONE) for st in falls]
+        res = []
+        for st_c, val in outs:
+            new = State(dict(s.env), st_c.facts, st_c.heap, s.ctx, st_c.trace)
+            for p, caller_name in arg_names.items():
+                t = st_c.env.get(f"{q}:{p}")
+                if t is not None and t != env.get(p) and t[0] == "mut":
+                    new.env[caller_name] = t        # the helper changed the caller's container in place
+            res.append((new, val))
+        return res
 
     def _comp(self, e, s, kind, elt):
         inner = s.copy()
